@@ -95,6 +95,7 @@ func inside(jail, p string) bool { // p is an absolute path inside the jail name
 func main() {
 	r := lib.Start("C16", "exploration")
 	r.Rule = "names from a traversal grammar (../ runs of depth 1-8 x tails, a/../../b shapes, ./x, x/., trailing slash, absolute-looking, dot, dot-dot, empty, NUL) plus valid controls, against plugin roots at depth 1/3/6, through Get+GetMetadata, Uninstall, Install from file and from directory (file names notation-.. / notation-.), List over roots with files/symlinks/nested directories, and verifier.Verify with the real CLIManager (JWS and COSE; audit with an untrusted signer, strict with a trusted one); one chrooted child per case; distinct by (operation, name, depth, format, level); non-trivial = names that are not a single path component"
+	r.Rule += "; plus sentinels on the PATH of the jailed process, names under which nothing is installed, List as an unprivileged user over an unreadable root, and verifiers built by the FromConfig constructors"
 	r.Assumptions = []string{"ground truth is lexical (single path component or not), independent of what exists on disk",
 		"names containing a backslash, '...', over-long names are not judged; for a valid name the install source is run to read its metadata (for a rejected name nothing runs, the source included)",
 		"chroot is permitted in the sandbox (checked at start; otherwise the run is inconclusive)"}
